@@ -107,6 +107,13 @@ type Options struct {
 	Trace bool
 	// MapDesc reverses the deterministic map iteration order.
 	MapDesc bool
+	// FreeSwitch selects CHESS-style pre-emption bounding: when the running
+	// thread blocked or finished, choosing among the other enabled threads is
+	// free and only switching away from a runnable thread costs a deviation.
+	// Without it every departure from the deterministic default scheduler
+	// (keep running; else lowest thread id) costs one deviation ("delay
+	// bounding"), which keeps the tree polynomial in the number of points.
+	FreeSwitch bool
 	// StartNanos is the initial reading of the virtual clock.
 	StartNanos int64
 }
@@ -563,7 +570,7 @@ func (s *sched) pick(c *Thread) *Thread {
 			}
 			if s.enabled(t) {
 				opts[n] = int16(t.id)
-				if curEn {
+				if curEn || (n > 0 && !s.opt.FreeSwitch) {
 					costs[n] = 1
 				} else {
 					costs[n] = 0
